@@ -17,6 +17,61 @@ static std::string types_of(const ipr::Product& p)
    return s + "]";
 }
 
+// "long <param|base|enum> <n>": ONE list of n members (member j of type T<(3j + j/8) % 8>, so that no two neighbours have the same type);
+// afterwards a sample of positions (0..40, every 257th, around every power of two, the last ten) is read back: the member found there is
+// the node that was returned when member p was added, it reports position p and its type, and the list's type has that type at p.
+static void long_list(Pools& w, const std::string& kind, long n)
+{
+   auto& greg = *w.greg;
+   std::vector<const ipr::Decl*> made;
+   std::vector<long> want_type;
+   const ipr::Sequence<ipr::Decl>* elems = nullptr;
+   const ipr::Product* prod = nullptr;
+   long bad_member = 0, bad_type = 0, bad_position = 0, bad_product = 0, first_bad = -1;
+   std::string err;
+   try {
+      impl::Class* cls = nullptr; impl::Mapping* map = nullptr; impl::Enum* en = nullptr;
+      if (kind == "param") map = w.lex.make_mapping(greg, Mapping_level{ 1 });
+      else if (kind == "base") cls = w.lex.make_class(greg);
+      else if (kind == "enum") en = w.lex.make_enum(greg, ipr::Enum::Kind::Scoped);
+      else { std::printf("LONG %s bad-kind\n", kind.c_str()); return; }
+      for (long j = 0; j < n; ++j) {
+         long t = (3 * j + j / 8) % 8;
+         want_type.push_back(t);
+         if (map) made.push_back(map->param(*w.ids[j % 12], *w.types[t]));
+         else if (cls) made.push_back(cls->declare_base(*w.types[t]));
+         else made.push_back(en->add_member(*w.ids[j % 12]));
+      }
+      const ipr::Scope& sc = map ? map->parameters().region().bindings() : cls ? cls->base_subobjects.bindings() : en->region().bindings();
+      elems = &sc.elements();
+      prod = util::view<ipr::Product>(sc.type());
+      std::vector<long> ps;
+      for (long p = 0; p <= 40 and p < n; ++p) ps.push_back(p);
+      for (long p = 257; p < n; p += 257) ps.push_back(p);
+      for (long b = 64; b < n + 2; b *= 2) for (long d : { -1L, 0L, 1L }) if (b + d >= 0 and b + d < n) ps.push_back(b + d);
+      for (long p = std::max(0L, n - 10); p < n; ++p) ps.push_back(p);
+      auto position_of = [&](const ipr::Decl& d) -> long {
+         if (auto x = util::view<ipr::Parameter>(d)) return long(std::size_t(x->position()));
+         if (auto x = util::view<ipr::Base_type>(d)) return long(std::size_t(x->position()));
+         if (auto x = util::view<ipr::Enumerator>(d)) return long(std::size_t(x->position()));
+         return -1;
+      };
+      for (long p : ps) {
+         bool bad = false;
+         const ipr::Decl& d = *elems->position(std::size_t(p));
+         if (&d != made[std::size_t(p)]) { ++bad_member; bad = true; }
+         if (not en and &d.type() != w.types[want_type[std::size_t(p)]]) { ++bad_type; bad = true; }
+         if (position_of(*made[std::size_t(p)]) != p) { ++bad_position; bad = true; }
+         if (prod and not en and &(*prod)[std::size_t(p)] != w.types[want_type[std::size_t(p)]]) { ++bad_product; bad = true; }
+         if (bad and first_bad < 0) first_bad = p;
+      }
+      if (long(elems->size()) != n or (prod and long(prod->size()) != n)) { ++bad_member; if (first_bad < 0) first_bad = n; }
+   }
+   catch (const std::exception& e) { err = e.what(); for (auto& c : err) if (c == ' ') c = '_'; }
+   std::printf("LONG %s n=%ld bad_member=%ld bad_type=%ld bad_position=%ld bad_product=%ld first=%ld error=%s\n", kind.c_str(), n,
+               bad_member, bad_type, bad_position, bad_product, first_bad, err.empty() ? "-" : err.c_str());
+}
+
 int main()
 {
    Pools w;
@@ -25,6 +80,7 @@ int main()
       if (line.empty() or line[0] == '#') continue;
       std::stringstream ss(line);
       std::string kind; ss >> kind;
+      if (kind == "long") { std::string k2; long n = 0; ss >> k2 >> n; long_list(w, k2, n); continue; }
       std::vector<long> ts; long v;
       while (ss >> v) ts.push_back(((v % 8) + 8) % 8);
       std::string out;
